@@ -143,14 +143,18 @@ class FuncModel:
                 if b in ds:
                     out = {(dx, i) for dx, _ in out}
                 if n.kind == "branch" and n.test is not None:
-                    t, pol = n.test, n.pol
-                    while isinstance(t, ast.UnaryOp) and isinstance(t.op, ast.Not):
-                        t, pol = t.operand, not pol
-                    if isinstance(t, ast.Compare) and len(t.ops) == 1 and isinstance(t.left, ast.Name) and t.left.id == x \
-                            and isinstance(t.comparators[0], ast.Constant) and t.comparators[0].value is None \
-                            and isinstance(t.ops[0], (ast.Is, ast.IsNot)):
-                        want_none = pol if isinstance(t.ops[0], ast.Is) else not pol
-                        out = {(dx, db) for dx, db in out if dx >= 0 and (is_none_def(dx) is None or is_none_def(dx) == want_none)}
+                    def literals(t, pol):
+                        while isinstance(t, ast.UnaryOp) and isinstance(t.op, ast.Not):
+                            t, pol = t.operand, not pol
+                        if isinstance(t, ast.BoolOp) and (isinstance(t.op, ast.Or) and not pol or isinstance(t.op, ast.And) and pol):
+                            return [l for v in t.values for l in literals(v, pol)]
+                        return [(t, pol)]
+                    for t, pol in literals(n.test, n.pol):
+                        if isinstance(t, ast.Compare) and len(t.ops) == 1 and isinstance(t.left, ast.Name) and t.left.id == x \
+                                and isinstance(t.comparators[0], ast.Constant) and t.comparators[0].value is None \
+                                and isinstance(t.ops[0], (ast.Is, ast.IsNot)):
+                            want_none = pol if isinstance(t.ops[0], ast.Is) else not pol
+                            out = {(dx, db) for dx, db in out if dx >= 0 and (is_none_def(dx) is None or is_none_def(dx) == want_none)}
                 for j in cfg.g.successors(i):
                     if not out <= IN[j]:
                         IN[j] |= out
@@ -591,7 +595,81 @@ class FuncModel:
             tnode = self.cfg.nodes[next(iter(self.cfg.g.predecessors(b.id)))]
             f = self.translator(tnode, atomize, numeric).f(test)
             fs.append(f if pol else logic.Not(f))
+            fs.extend(self._definition_facts(test, tnode, atomize, numeric))
         return logic.And(*fs)
+
+    # what the definitions of a tested variable say about it:  `xs = f() if flag else []` ... `if len(xs) != 0:` can only
+    # be entered under `flag`.  For every variable of the test with several plain definitions, the disjunction over the
+    # definitions of (conditions under which it was made  and  what it says about the value) is added.
+    def _definition_facts(self, test: ast.expr, tnode: N, atomize=None, numeric=None) -> list:
+        out = []
+        names = sorted({y.id for y in ast.walk(test) if isinstance(y, ast.Name) and isinstance(y.ctx, ast.Load)})
+        for x in names:
+            defs = self.cfg.reaching_defs(x, tnode)
+            if not 1 <= len(defs) <= 4:
+                continue
+            alts = []
+            informative = False
+            for d in defs:
+                a = d.ast
+                if not (d.kind == "stmt" and isinstance(a, ast.Assign) and len(a.targets) == 1
+                        and isinstance(a.targets[0], ast.Name) and a.targets[0].id == x):
+                    alts = None
+                    break
+                conds = []
+                for t2, pol2, b2 in self.facts(d):
+                    tn2 = self.cfg.nodes[next(iter(self.cfg.g.predecessors(b2.id)))]
+                    if self.stale(tn2, tnode, t2, deep=True):
+                        continue
+                    f2 = self.translator(tn2, atomize, numeric).f(t2)
+                    conds.append(f2 if pol2 else logic.Not(f2))
+                vf = self._value_fact(x, a.value, d, tnode, atomize, numeric)
+                if vf is not logic.TRUE:
+                    informative = True
+                alts.append(logic.And(*conds, vf))
+            if alts and informative:
+                out.append(logic.Or(*alts))
+        return out
+
+    def _value_fact(self, x: str, rhs: ast.expr, d: N, tnode: N, atomize, numeric):
+        empty = isinstance(rhs, (ast.List, ast.Tuple, ast.Set)) and not rhs.elts or isinstance(rhs, ast.Dict) and not rhs.keys \
+            or isinstance(rhs, ast.Call) and isinstance(rhs.func, ast.Name) and rhs.func.id in ("list", "set", "dict", "tuple") \
+            and not rhs.args and not rhs.keywords
+        if empty:
+            # the container must still be empty at the test: nothing in between calls a method of it, stores into it
+            # or hands it to a call
+            for i in self.cfg.between(d, tnode):
+                if i in (d.id, tnode.id):
+                    continue
+                a = self.cfg.nodes[i].ast
+                if a is None:
+                    continue
+                parts = [a.test] if isinstance(a, (ast.If, ast.While)) else [a.iter, a.target] if isinstance(a, ast.For) else \
+                    [w.context_expr for w in a.items] if isinstance(a, ast.With) else [] if isinstance(
+                        a, (ast.Try, ast.FunctionDef, ast.ClassDef)) else [a]
+                for pt in parts:
+                    for y in ast.walk(pt):
+                        if isinstance(y, ast.Call) and (
+                                isinstance(y.func, ast.Attribute) and isinstance(y.func.value, ast.Name) and y.func.value.id == x
+                                or any(isinstance(g, ast.Name) and g.id == x for g in list(y.args) + [k.value for k in y.keywords])
+                                and not (isinstance(y.func, ast.Name) and y.func.id in ("len", "sorted", "list", "set", "print"))):
+                            return logic.TRUE
+                        if isinstance(y, ast.Subscript) and isinstance(y.ctx, (ast.Store, ast.Del)) \
+                                and isinstance(y.value, ast.Name) and y.value.id == x:
+                            return logic.TRUE
+                        if isinstance(y, ast.AugAssign) and isinstance(y.target, ast.Name) and y.target.id == x:
+                            return logic.TRUE
+            return self.translator(tnode, None, numeric).f(ast.parse(f"len({x}) == 0", mode="eval").body)
+        if isinstance(rhs, ast.Constant) and rhs.value is None:
+            return self.translator(tnode, None, numeric).f(ast.parse(f"{x} is None", mode="eval").body)
+        if isinstance(rhs, ast.IfExp) and self.is_pure(rhs.test) and not self.stale(d, tnode, rhs.test, deep=True):
+            c = self.translator(d, atomize, numeric).f(rhs.test)
+            a = self._value_fact(x, rhs.body, d, tnode, atomize, numeric)
+            b = self._value_fact(x, rhs.orelse, d, tnode, atomize, numeric)
+            if a is logic.TRUE and b is logic.TRUE:
+                return logic.TRUE
+            return logic.Or(logic.And(c, a), logic.And(logic.Not(c), b))
+        return logic.TRUE
 
     def translator(self, at: N | None, atomize=None, numeric=None) -> logic.Translator:
         me = self
